@@ -7,40 +7,20 @@ import CelerVerif.Lemmas.SolidsBox
 namespace CelerVerif.Solids
 open CelerVerif CelerVerif.Surf
 
-theorem map_applyTransform_none (l : List (Sense × Surface ℝ)) :
-    l.map (fun q => (q.1, applyTransform (none : Option (Vec3 ℝ)) q.2)) = l := by
-  have hf : (fun q : Sense × Surface ℝ => (q.1, applyTransform (none : Option (Vec3 ℝ)) q.2)) = id := by
-    funext q; rfl
-  rw [hf, List.map_id]
-
-theorem map_applyTransform_some (t : Vec3 ℝ) (l : List (Sense × Surface ℝ)) :
-    l.map (fun q => (q.1, applyTransform (some t) q.2)) = translateEmit t l := rfl
-
 /-- a leaf: if the region's raw emission is sound at every point off its surfaces, then the
-    emission under the accumulated translation evaluates to membership of the pulled-back point -/
-theorem shape_sound (tol : Tol ℝ) (r : Region ℝ) (tra : Option (Vec3 ℝ)) (p : Vec3 ℝ)
-    (hr : ∀ q, OffSurfaces (r.emit tol) q → (r.mem q = true ↔ Holds (r.emit tol) q))
-    (hoff : OffSurfaces ((r.emit tol).map fun q => (q.1, applyTransform tra q.2)) p) :
-    Sound tol tra (.shape r) p := by
+    emission under the accumulated transform, evaluated with the real `calc_sense` at the image of
+    the local point q, is the membership of q -/
+theorem shape_sound (tol : Tol ℝ) (r : Region ℝ) (acc : Xform ℝ) (hacc : acc.Ortho) (q : Vec3 ℝ)
+    (hu : UnitNormals (r.emit tol))
+    (hr : OffSurfaces (r.emit tol) q → (r.mem q = true ↔ Holds (r.emit tol) q))
+    (hoff : OffSurfaces (r.emit tol) q) :
+    Sound tol acc (.shape r) q := by
   unfold Sound
   simp only [Obj.eval, Obj.mem]
   rw [Bool.eq_iff_iff]
-  cases tra with
-  | none =>
-    rw [map_applyTransform_none] at hoff ⊢
-    simp only [downBy]
-    rw [evalEmit_iff _ _ hoff]
-    exact (hr p hoff).symm
-  | some t =>
-    rw [map_applyTransform_some] at hoff ⊢
-    simp only [downBy]
-    have hp : p = translateUp t (translateDown t p) := (translate_up_down t p).symm
-    rw [evalEmit_iff _ _ hoff]
-    rw [hp] at hoff ⊢
-    rw [holds_translate]
-    rw [offSurfaces_translate] at hoff
-    rw [translate_down_up]
-    exact (hr _ hoff).symm
+  have e : ((r.emit tol).map fun s => (s.1, applyTransform acc s.2)) = xformEmit acc (r.emit tol) := rfl
+  rw [e, evalEmit_iff _ _ ((offSurfaces_xform acc hacc _ hu q).mpr hoff), holds_xform acc hacc _ hu q]
+  exact (hr hoff).symm
 
 /-- equal radii: the documented cone is the cylinder, which is what the degenerate branch emits
     (the mean of two equal radii) -/
@@ -67,7 +47,7 @@ def Region.Proved (tol : Tol ℝ) : Region ℝ → Prop
   | .prism _ _ _ _ => True
   | .ppiped h sa ca st ct sp cp =>
     0 < h.x ∧ 0 < h.y ∧ 0 < h.z ∧ sa = 0 ∧ ca = 1 ∧ st = 0 ∧ ct = 1 ∧ sp = 0 ∧ cp = 1
-  | .wedge _ _ _ _ => True
+  | .wedge ss cs se ce => ss * ss + cs * cs = 1 ∧ se * se + ce * ce = 1
 
 theorem region_emit_sound (tol : Tol ℝ) (r : Region ℝ) (hp : r.Proved tol) (q : Vec3 ℝ)
     (hoff : OffSurfaces (r.emit tol) q) : r.mem q = true ↔ Holds (r.emit tol) q := by
@@ -89,5 +69,67 @@ theorem region_emit_sound (tol : Tol ℝ) (r : Region ℝ) (hp : r.Proved tol) (
     obtain ⟨h1, h2, h3, rfl, rfl, rfl, rfl, rfl, rfl⟩ := hp
     exact emitPpiped_box_sound h q h1 h2 h3 hoff
   | wedge ss cs se ce => exact emitWedge_sound ss cs se ce q hoff
+
+theorem makeUnit_unit (v : Vec3 ℝ) (hv : 0 < v.x * v.x + v.y * v.y + v.z * v.z) :
+    (makeUnit v).x * (makeUnit v).x + (makeUnit v).y * (makeUnit v).y
+      + (makeUnit v).z * (makeUnit v).z = 1 := by
+  unfold makeUnit
+  simp only [Vec3.norm]
+  vec_simp
+  num_simp
+  have hD : v.z * v.z + (v.y * v.y + v.x * v.x) = v.x * v.x + v.y * v.y + v.z * v.z := by ring
+  rw [hD]
+  set D := v.x * v.x + v.y * v.y + v.z * v.z with hDdef
+  have hS : Real.sqrt D * Real.sqrt D = D := Real.mul_self_sqrt hv.le
+  have hSpos : 0 < Real.sqrt D := Real.sqrt_pos.mpr hv
+  have hne : Real.sqrt D ≠ 0 := ne_of_gt hSpos
+  field_simp
+  nlinarith [hS]
+
+/-- every plane emitted by a `Proved` region has a unit normal (precondition of transforming it) -/
+theorem region_unitNormals (tol : Tol ℝ) (r : Region ℝ) (hp : r.Proved tol) :
+    UnitNormals (r.emit tol) := by
+  unfold UnitNormals
+  cases r with
+  | box hw => simp [Region.emit, emitBox, Surface.UnitNormal]
+  | sphere r => simp [Region.emit, emitSphere, Surface.UnitNormal]
+  | cyl r hh => simp [Region.emit, emitCyl, Surface.UnitNormal]
+  | cone lo hi hh =>
+    obtain ⟨_, _, h3⟩ := hp
+    simp [Region.emit, emitCone, h3, emitConeProper, coneSurface, Surface.UnitNormal]
+  | ellipsoid r => simp [Region.emit, emitEllipsoid, ellipsoidSurface, Surface.UnitNormal]
+  | prism n a hh o =>
+    intro q hq
+    simp only [Region.emit, emitPrism, List.mem_append, List.mem_cons, List.not_mem_nil, or_false,
+      List.mem_map] at hq
+    rcases hq with (rfl | rfl) | ⟨k, _, rfl⟩
+    · trivial
+    · trivial
+    · simp only [prismSide, Surface.UnitNormal]
+      num_simp
+      simp only [NumR.cos_real, NumR.sin_real, mul_zero, add_zero]
+      have := Real.cos_sq_add_sin_sq (prismTheta n o k)
+      nlinarith [this]
+  | ppiped h sa ca st ct sp cp =>
+    obtain ⟨h1, h2, h3, rfl, rfl, rfl, rfl, rfl, rfl⟩ := hp
+    intro q hq
+    simp only [Region.emit, emitPpiped, List.mem_cons, List.not_mem_nil, or_false] at hq
+    rcases hq with rfl | rfl | rfl | rfl | rfl | rfl
+    · trivial
+    · trivial
+    all_goals
+      simp only [Surface.UnitNormal, ppipedFaces, ppipedBase]
+      apply makeUnit_unit
+      simp only [cross]
+      num_simp
+      simp only [mul_zero, zero_mul, sub_zero, add_zero, zero_add, mul_one, one_mul, zero_sub]
+      positivity
+  | wedge ss cs se ce =>
+    obtain ⟨h1, h2⟩ := hp
+    intro q hq
+    simp only [Region.emit, emitWedge, List.mem_cons, List.not_mem_nil, or_false] at hq
+    rcases hq with rfl | rfl
+    · simp only [Surface.UnitNormal]; num_simp; nlinarith [h1]
+    · simp only [Surface.UnitNormal]; num_simp; nlinarith [h2]
 
 end CelerVerif.Solids
